@@ -57,6 +57,10 @@ def t_verify(tier, fq, replay=None, part=None, nparts=None, tag=None, vfilter=No
         if tag:
             inc = any(fnmatch.fnmatchcase(ob.name, p) for p in tag.get("include", ["*"]))
             exc = any(fnmatch.fnmatchcase(ob.name, p) for p in tag.get("exclude", []))
+            if ob.status == "oos" or "/subset#" in ob.name:
+                # a path of the callee that left the interpreter's subset: whatever clause it belonged to is
+                # undecided for the dependent property too (never silently dropped)
+                inc, exc = True, False
             if inc and not exc and tag["prop"] not in d.get("props", []):
                 d["props"] = list(d.get("props", [])) + [tag["prop"]]
                 d["tagged_dependency"] = True
